@@ -154,6 +154,28 @@ def factory_wiring(ck):
                                      {"kind": "factory", "u": u, "v": v})
                     else:
                         common.spurious("C13", f"factory {u}->{v}")
+                # the same derived function on an integer-typed column (whole-euro amounts arrive as int64): still x * factor, as float
+                icol = SymArray([R.Sym(z3.Int("i0"), int), R.Sym(z3.Int("i1"), int)], int)
+                ctx = R.Ctx()
+                try:
+                    with R.using(ctx):
+                        val = R.call_value(made[d], [], {src: icol})
+                    ts = [R.term_of(x, float) for x in val.e]
+                except (R.Unsupported, R.PathEnd, AttributeError) as e:
+                    ck.add_inconclusive(f"factory {u}->{v}{agg} on an integer column: {e}")
+                    continue
+                bad = z3.Or([zabs(t - z3.ToReal(i.t) * zfr(fac)) > zfr(REL) * zabs(z3.ToReal(i.t) * zfr(fac)) for t, i in zip(ts, icol.e)])
+                r, m = ck.oblige(f"factory {src} (int64 column) -> {d} = x * {fac}", [z3.And(i.t >= 0, i.t <= 10**7) for i in icol.e] + [bad], 30)
+                ck.nontrivial.add(("factory-int", u, v, agg))
+                if r == "sat":
+                    arr = numpy.array([R.model_value(m, i) for i in icol.e], dtype="int64")
+                    out = numpy.asarray(made[d](**{src: arr}), dtype=float)
+                    exp = arr.astype(float) * float(fac)
+                    if not numpy.allclose(out, exp, rtol=1e-9, atol=0):
+                        ck.violation(["factory-int", f"{u}->{v}{agg}"], f"{d} derived from the int64 column {src}={arr.tolist()} gives {out.tolist()}; documented factor {fac} gives {exp.tolist()}",
+                                     {"kind": "factory", "u": u, "v": v})
+                    else:
+                        common.spurious("C13", f"factory-int {u}->{v}")
 
 
 def time_names(dag_functions, inputs):
